@@ -20,7 +20,7 @@ fn alt(c: Cpr) -> Altitude {
         tc: TCS[(h % 13) as usize],
         ss: [SS::NoCondition, SS::PermanentAlert, SS::TemporaryAlert, SS::SPICondition][((h >> 8) % 4) as usize],
         saf_or_imf: ((h >> 12) & 1) as u8,
-        alt: if (h >> 16) % 5 == 0 { None } else { Some(((h >> 20) % 50_000) as u16) },
+        alt: if (h >> 16) % 5 == 0 { None } else { Some((((h >> 20) % 50_000) as u16).into()) },
         t: (h >> 40) & 1 == 1,
         odd_flag: if c.odd { CPRFormat::Odd } else { CPRFormat::Even },
         lat_cpr: c.yz,
